@@ -35,8 +35,10 @@ TRUSTED = ["harness/run_C09.py (script generator, observation, reference-count o
 DEL_CONTINUES = 1
 # two script files = two global contexts; "j" = a Jupyter kernel session (context `jupyter_0`), created the way the
 # `pyscript.jupyter_kernel_start` service creates it and ended by Kernel.session_shutdown() / GlobalContextMgr.delete()
-FILES = {"t": "file.t", "u": "file.u", "j": "jupyter_0"}
-SLOT_BASE = {"t": 0, "u": 10, "j": 20}
+# "s1"/"s2"/"s3" = script files below pyscript/scripts/ at three depths (contexts scripts.s, scripts.d.s, scripts.d.e.s)
+FILES = {"t": "file.t", "u": "file.u", "j": "jupyter_0", "s1": "scripts.s", "s2": "scripts.d.s", "s3": "scripts.d.e.s"}
+FILE_PATH = {"t": "t.py", "u": "u.py", "s1": "scripts/s.py", "s2": "scripts/d/s.py", "s3": "scripts/d/e/s.py"}
+SLOT_BASE = {"t": 0, "u": 10, "j": 20, "s1": 60, "s2": 70, "s3": 80}
 SHARED = "shared"                           # the service name both contexts compete for (`pyscript.shared`)
 # BOUNDARY: entity / event names that are prefixes of each other (pyscript.a / pyscript.ab, ev1 / ev1x)
 ENTS = ["pyscript.a", "pyscript.b", "pyscript.c", "pyscript.ab"]
@@ -273,6 +275,25 @@ def fixed_cases():
             {"op": "del", "name": "f0"}, D("f1", 1), dict(D("f2", 2, [["pyscript.c"]]), sleepy=True),
             {"op": "assign", "name": "f2"}, {"op": "unloadall"}, {"op": "setup"},
             D("f0", 3, [["pyscript.ab"]], ["ev1x"], ["s3"], sd=True), {"op": "unloadall"}]})
+        # a script below pyscript/scripts/ - directly, one and two directories deep - is removed (deleted, or "commented"
+        # by renaming it / its directory with a leading '#') and pyscript.reload is called: nothing of it may be left
+        out.append({"family": "fixed", "legacy": legacy, "hashseed": 0, "ops": [
+            D("f0", 0, [["pyscript.a"]], ["ev1"], ["s0"], sd=True, file="s1"),
+            D("f0", 1, [["pyscript.b", "pyscript.b.old"]], ["ev2"], ["s1"], sd=True, file="s2"),
+            D("f0", 2, [["pyscript.c"]], ["ev1x"], ["s2"], su=True, sd=True, file="s3"),
+            D("f1", 3, [["pyscript.ab"]], file="t"),
+            {"op": "put", "file": "s3", "slot": 0, "name": "f0", "kind": "dict"},
+            {"op": "deletefile", "file": "s2"}, {"op": "deletefile", "file": "s3"}, {"op": "deletefile", "file": "s1"},
+            {"op": "reloadfile", "file": "t"}, {"op": "unloadall"}]})
+        out.append({"family": "fixed", "legacy": legacy, "hashseed": 0, "ops": [
+            D("f0", 0, [["pyscript.a", "pyscript.ab"]], ["ev1"], ["s0"], sd=True, file="s2"),
+            D("f1", 1, [["pyscript.c"]], [], ["s1"], file="s1"),
+            {"op": "reloadfile", "file": "s2"},
+            D("f0", 2, [["pyscript.b"]], ["ev2"], ["s2"], sd=True, file="s2"),
+            {"op": "commentfile", "file": "s2"}, {"op": "commentfile", "file": "s1"}, {"op": "unloadall"}]})
+        out.append({"family": "fixed", "legacy": legacy, "hashseed": 0, "ops": [
+            D("f0", 0, [["pyscript.a"]], ["ev1x"], ["s0"], su=True, sd=True, file="s3"),
+            {"op": "commentfile", "file": "s3"}, D("f0", 1, [["pyscript.a"]], file="t"), {"op": "unloadall"}]})
         # a Jupyter session with every kind of declaration ends while pyscript keeps running
         for how in ("shutdown", "delete"):
             out.append({"family": "fixed", "legacy": legacy, "hashseed": 0, "ops": [
@@ -479,8 +500,8 @@ def _run_one(payload):
         await env.settle(0.01)
 
         def write_file(file, bump):
-            p = os.path.join(root, file + ".py")
-            os.makedirs(root, exist_ok=True)
+            p = os.path.join(root, FILE_PATH[file])
+            os.makedirs(os.path.dirname(p), exist_ok=True)
             with open(p, "w") as f:
                 f.write(src[file])
             os.utime(p, (1000000 + bump, 1000000 + bump))
@@ -578,7 +599,15 @@ def _run_one(payload):
                     write_file(fl, nreload)
                     await env.reload()
                 elif k == "deletefile":
-                    os.unlink(os.path.join(root, fl + ".py"))
+                    os.unlink(os.path.join(root, FILE_PATH[fl]))
+                    await env.reload()
+                elif k == "commentfile":
+                    # "commented" by renaming: the file itself (`#s.py`), or - for s2 - its directory (`scripts/#d`)
+                    if fl == "s2":
+                        os.rename(os.path.join(root, "scripts", "d"), os.path.join(root, "scripts", "#d"))
+                    else:
+                        pth = os.path.join(root, FILE_PATH[fl])
+                        os.rename(pth, os.path.join(os.path.dirname(pth), "#" + os.path.basename(pth)))
                     await env.reload()
                 elif k == "unloadall":
                     entries = hass.config_entries.async_entries("pyscript")
@@ -754,7 +783,7 @@ def model_ops(payload):
             kind = o.get("kind", "dict")
             ops.append(["drop", (40 + o["slot"] + slot_base) if kind == "module" else
                         (o["slot"] + slot_base + KIND_BASE[kind])])
-        elif k in ("reloadfile", "deletefile"):
+        elif k in ("reloadfile", "deletefile", "commentfile"):
             ops.append(["unloadctx", ctx])
         elif k == "unloadall":
             ops.append(["unloadall"])
@@ -849,7 +878,7 @@ def oracle(payload):
         elif k == "drop":
             kind = o.get("kind", "dict")
             (xslots if kind == "module" else slots[f]).pop((f, kind, o["slot"]), None)
-        elif k in ("reloadfile", "deletefile", "jend"):
+        elif k in ("reloadfile", "deletefile", "commentfile", "jend"):
             # the context is stopped: "reloading or removing its file ... deactivates" its functions - also those that
             # a module's container still references
             gone = {g for g, d in gens.items() if d.get("file", "t") == f}
@@ -894,7 +923,8 @@ def oracle(payload):
             if full in svcs and len(runs[full]) > 1:
                 runs[full] = [max(runs[full])]   # redefinition inside one context: the latest definition answers
         out.append({"st": st, "ev": ev, "bus": bus, "svc": sorted(cnt), "cnt": cnt, "own": own, "log": log, "runs": runs,
-                    "final": k == "unloadall" or (k == "deletefile" and not multi), "active": sorted(active),
+                    "final": k == "unloadall" or (k in ("deletefile", "commentfile") and not multi),
+                    "active": sorted(active),
                     "unloaded": k == "unloadall"})
         active_prev = active
     return out
